@@ -18,7 +18,7 @@ use std::{
 	time::{Duration, Instant},
 };
 
-const KINDS: [&str; 8] = ["tiny_commits", "huge_transactions", "index_growth", "slow_workers", "slow_clients", "giant_transaction", "worker_dies_while_throttled", "postponed_dereference"];
+const KINDS: [&str; 9] = ["tiny_commits", "huge_transactions", "index_growth", "slow_workers", "slow_clients", "giant_transaction", "worker_dies_while_throttled", "postponed_dereference", "queue_limit_boundary"];
 
 fn value(client: u8, seq: u64, len: usize) -> Vec<u8> {
 	let mut v = Vec::with_capacity(len.max(10));
@@ -32,14 +32,14 @@ fn value(client: u8, seq: u64, len: usize) -> Vec<u8> {
 }
 
 pub fn run_case(ctx: &Ctx, rep: &mut Report, case_seed: u64, variant: u64) {
-	let kind = (variant % 8) as usize;
-	let always_flush = kind != 5 && (variant / 16) % 2 == 0;
+	let kind = (variant % 9) as usize;
+	let always_flush = kind != 5 && kind != 8 && (variant / 16) % 2 == 0;
 	// shutdown requested at any moment: half of the histories drop the handle the instant the last
 	// commit call returned (queue, log and enact stages still busy) instead of waiting for the drain
 	// (not with the test-only `always_flush` option: there the log worker enacts inline and a drop
 	// with more than four uncleaned logs waits for a cleanup stage that has already left - outside
 	// the property, whose configurations are the public options)
-	let immediate = kind == 5 || (!always_flush && (variant / 14) % 2 == 1) || (!always_flush && variant % 5 == 3);
+	let immediate = kind == 5 || (kind != 8 && !always_flush && (variant / 14) % 2 == 1) || (kind != 8 && !always_flush && variant % 5 == 3);
 	let desc = format!("C15 case_seed={} variant={} scenario={} always_flush={} drop={}", case_seed, variant, KINDS[kind], always_flush, if immediate { "immediately" } else { "after drain" });
 	ctx.mark(&desc);
 	ctx.progress();
@@ -70,8 +70,18 @@ fn scenario(ctx: &Ctx, rep: &mut Report, case_seed: u64, variant: u64, kind: usi
 	}
 	cfg.background = true;
 	cfg.always_flush = always_flush;
+	// the public syncing options in all four combinations (the limits of the commit and cleanup
+	// stages depend on them): the default in half of the histories
+	if (variant / 9) % 2 == 1 && kind != 6 {
+		cfg.sync_wal = (variant / 18) % 2 == 0;
+		cfg.sync_data = (variant / 36) % 2 == 0;
+	}
+	let sync_tag = format!("w{}d{}", cfg.sync_wal as u8, cfg.sync_data as u8);
 	let opts = cfg.options(&dir.path.join("db"));
 	let db = Arc::new(Db::open_or_create(&opts).expect("open_or_create"));
+	if kind == 8 {
+		return boundary(ctx, rep, case_seed, variant, db, &opts, desc)
+	}
 	if kind == 6 {
 		// the LOG worker itself is to fail while committers are throttled: every log file name
 		// from the third on is occupied by a directory, so creating that log file fails (EISDIR)
@@ -370,7 +380,8 @@ fn scenario(ctx: &Ctx, rep: &mut Report, case_seed: u64, variant: u64, kind: usi
 			rep.count(if immediate { "postponed_then_dropped" } else { "postponed_then_drained_without_client" }, 1);
 		}
 	}
-	rep.seen(format!("{}|throttled{}|af{}|delay{}|imm{}|postponed{}", KINDS[kind], throttled as u8, always_flush as u8, profile, immediate as u8, (kind == 7 && hits[9] > 0) as u8));
+	rep.seen(format!("{}|throttled{}|af{}|delay{}|imm{}|postponed{}|{}", KINDS[kind], throttled as u8, always_flush as u8, profile, immediate as u8, (kind == 7 && hits[9] > 0) as u8, sync_tag));
+	rep.count(&format!("sync_options_{}", sync_tag), 1);
 	// ---- shutdown terminates
 	ctx.mark(&format!("{} :: dropping the handle", desc));
 	ctx.progress();
@@ -427,4 +438,82 @@ fn scenario(ctx: &Ctx, rep: &mut Report, case_seed: u64, variant: u64, kind: usi
 		rep.sample(J::obj().set("case", J::s(desc.to_string())).set("clients", J::i(n_clients as u64)).set("commits", J::i(returned.load(Ordering::SeqCst))).set("keys_verified_after_reopen", J::i(checked)));
 	}
 	let _ = variant;
+}
+
+/// The commit queue holds EXACTLY its limit (16 MiB), one byte less, or one byte more when
+/// another commit arrives: whatever the throttling rule makes of the boundary, that commit has
+/// to return (a committer put to sleep at exactly the limit is only woken if the wake-up rule
+/// agrees with the sleep rule about which side the boundary is on).
+fn boundary(ctx: &Ctx, rep: &mut Report, case_seed: u64, variant: u64, db: Arc<Db>, opts: &parity_db::Options, desc: &str) {
+	const LIMIT: usize = 16 * 1024 * 1024;
+	let delta: i64 = [0i64, -1, 1, 0][((variant / 9) % 4) as usize];
+	let replay = J::obj().set("case", J::s(desc.to_string())).set("case_seed", J::i(case_seed)).set("variant", J::i(variant));
+	// the log worker takes the first commit off the queue and is then held for a while right
+	// before it would publish the record: the queue is filled behind its back
+	delays::install(case_seed, 0, 0, 0);
+	delays::slow_site(2, 1_200_000);
+	let mut expect: BTreeMap<Vec<u8>, Vec<u8>> = BTreeMap::new();
+	let mut put = |db: &Db, k: &str, v: Vec<u8>| {
+		db.commit_changes(vec![(0u8, Operation::Set(k.as_bytes().to_vec(), v.clone()))]).expect("commit");
+		expect.insert(k.as_bytes().to_vec(), v);
+	};
+	put(&db, "opener", value(0, 1, 50));
+	let t0 = Instant::now();
+	while db.verif_status().queued_commits > 0 && t0.elapsed() < Duration::from_secs(20) {
+		std::thread::sleep(Duration::from_millis(1));
+	}
+	// how the queue accounts for one operation: a probe with a one-byte value
+	put(&db, "probe", vec![7u8]);
+	let after_probe = db.verif_status().queued_bytes;
+	if after_probe < 1 || after_probe > 200 || db.verif_status().queued_commits != 1 {
+		rep.count("boundary_not_reached", 1);
+		delays::uninstall();
+		drop(Arc::try_unwrap(db).ok());
+		return
+	}
+	let overhead = after_probe - 1;
+	let len = (LIMIT as i64 + delta) as usize - after_probe - overhead;
+	put(&db, "filler", value(0, 2, len));
+	let st = db.verif_status();
+	if st.queued_bytes as i64 != LIMIT as i64 + delta || st.queued_commits != 2 {
+		// the worker got ahead of us: this run says nothing about the boundary
+		rep.count("boundary_not_reached", 1);
+	} else {
+		rep.count("boundary_reached", 1);
+		rep.count(&format!("boundary_delta_{}", delta), 1);
+	}
+	ctx.mark(&format!("{} :: commit while the queue holds the limit {:+} bytes", desc, delta));
+	ctx.progress();
+	// this call may be throttled (above the limit) - but it returns
+	let t = Instant::now();
+	put(&db, "late", value(0, 3, 100));
+	rep.max("commit_latency_ms", t.elapsed().as_millis() as u64);
+	rep.count("commits_returned", 4);
+	rep.evaluations += 1;
+	ctx.progress();
+	delays::uninstall();
+	// no further client activity: the queue empties
+	let t0 = Instant::now();
+	while db.verif_status().queued_commits > 0 && t0.elapsed() < Duration::from_secs(60) {
+		std::thread::sleep(Duration::from_millis(5));
+		ctx.progress();
+	}
+	rep.count("drained_checks", 1);
+	rep.seen(format!("queue_limit_boundary|delta{}", delta));
+	ctx.mark(&format!("{} :: dropping the handle", desc));
+	let db = Arc::try_unwrap(db).ok().expect("handle still shared");
+	drop(db);
+	ctx.progress();
+	rep.count("drops_completed", 1);
+	let mut o2 = opts.clone();
+	o2.with_background_thread = false;
+	let db = Db::open(&o2).expect("reopen");
+	for (k, v) in &expect {
+		rep.evaluations += 1;
+		if db.get(0, k).expect("get").as_ref() != Some(v) {
+			rep.violation("scenario=C15;failure=not_persisted_after_drop".to_string(), format!("after drop + reopen key {} does not hold its committed value", String::from_utf8_lossy(k)), replay);
+			return
+		}
+	}
+	rep.count("persisted_checks", 1);
 }
